@@ -85,7 +85,7 @@ theorem hexDigitsAux_spec : ∀ (fuel n : Nat) (acc : List Char), n < fuel →
             have := hlen (k + 1) (by omega) h1
             omega
 
-theorem hexDigits_spec (g : Nat) :
+theorem v6_hexDigits_spec (g : Nat) :
     hexDigits g ≠ [] ∧ (∀ c, c ∈ hexDigits g → v6_hexOut c) ∧ (hexDigits g).foldl hexStep 0 = g ∧
       (∀ k, 0 < k → g < 16 ^ k → (hexDigits g).length ≤ k) := by
   obtain ⟨D, hD, hne, hdig, hval, hlen⟩ := hexDigitsAux_spec (g + 1) g [] (by omega)
@@ -95,10 +95,10 @@ theorem hexDigits_spec (g : Nat) :
   rw [hval 0]; omega
 
 theorem hexDigits_length_le4 (g : Nat) (hg : g < 65536) : (hexDigits g).length ≤ 4 :=
-  (hexDigits_spec g).2.2.2 4 (by decide) (by simpa using hg)
+  (v6_hexDigits_spec g).2.2.2 4 (by decide) (by simpa using hg)
 
 theorem hexDigits_pos (g : Nat) : 0 < (hexDigits g).length := by
-  have := (hexDigits_spec g).1
+  have := (v6_hexDigits_spec g).1
   cases h : hexDigits g with
   | nil => exact absurd h this
   | cons => simp
@@ -133,7 +133,7 @@ theorem readGroup_noHexHead (s : List Char) (h : v6_noHexHead s) : readGroup s =
 /-- the `{:x}` rendering of a 16-bit group is read back -/
 theorem readGroup_hexDigits (g : Nat) (rest : List Char) (hg : g < 65536) (hr : v6_noHexHead rest) :
     readGroup (hexDigits g ++ rest) = some (g, rest) := by
-  obtain ⟨hne, hdig, hval, _⟩ := hexDigits_spec g
+  obtain ⟨hne, hdig, hval, _⟩ := v6_hexDigits_spec g
   have hsp := spanHex_append (hexDigits g) rest (fun c hc => v6_hexOut_isHex (hdig c hc)) hr
   have hlen := hexDigits_length_le4 g hg
   have h1 : ((hexDigits g).isEmpty || decide ((hexDigits g).length > 4)) = false := by
@@ -244,11 +244,11 @@ theorem v6_joinWith_chars (gs : List Nat) (c : Char) (hc : c ∈ joinWith ':' (g
     cases gs with
     | nil =>
       simp only [List.map_cons, List.map_nil, joinWith] at hc
-      exact Or.inl ((hexDigits_spec g).2.1 c hc)
+      exact Or.inl ((v6_hexDigits_spec g).2.1 c hc)
     | cons g' gs =>
       simp only [List.map_cons, joinWith, List.mem_append, List.mem_cons] at hc ih
       rcases hc with h | rfl | h
-      · exact Or.inl ((hexDigits_spec g).2.1 c h)
+      · exact Or.inl ((v6_hexDigits_spec g).2.1 c h)
       · exact Or.inr rfl
       · exact ih h
 
